@@ -78,10 +78,17 @@ def check_factor_generators(prog: Program, rep: Report) -> None:
                "the generator must yield exactly one in-state per index set of the active point mass's index")
         if not ys:
             continue
-        y = norm(ys[0].value)
+        # the yielded in-state: tuple(<pair> for t in <index set>) where the index set is the loop variable over map[a[1]]
+        yv = ys[0].value
+        gen = yv.args[0] if isinstance(yv, ast.Call) and norm(yv.func) == "tuple" and len(yv.args) == 1 and isinstance(yv.args[0], (ast.GeneratorExp, ast.ListComp)) else None
+        setvar = norm(inner[0].target) if inner else None
+        shape_ok = gen is not None and len(gen.generators) == 1 and not gen.generators[0].ifs and norm(gen.generators[0].iter) == setvar \
+            and isinstance(gen.generators[0].target, ast.Name)
+        t = gen.generators[0].target.id if shape_ok else None
+        n_ = "setting.number_of_nodes_per_root_node"
         if local:
-            ok = f"({a}[0], target_leaf_node)" in y and "other_root" not in y
-            rep.ob("R10.5-local-instantiation", ok, loc, ys[0].value,
+            ok = shape_ok and norm(gen.elt) == f"({a}[0], {t})"
+            rep.ob("R10.5-local-instantiation", bool(ok), loc, ys[0].value,
                    "an intra-object index set is instantiated once, inside the active point mass's own composite object")
         else:
             outer = [n for n in ast.walk(g) if isinstance(n, ast.For) and "range(setting.number_of_root_nodes)" in norm(n.iter)]
@@ -94,8 +101,14 @@ def check_factor_generators(prog: Program, rep: Report) -> None:
                 required = atoms(ast.parse(f"{o} != {a}[0]", mode="eval").body)[0]
                 allowed = {required, f"{a}[1] in self._map"}
                 skip_ok = required in conds and set(conds) <= allowed and not exits2
-                n_ = "setting.number_of_nodes_per_root_node"
-                inst = f"({a}[0], target_leaf_node) if target_leaf_node < {n_} else ({o}, target_leaf_node - {n_})" in y
+                inst = False
+                if shape_ok and isinstance(gen.elt, ast.IfExp):
+                    at = atoms(gen.elt.test)
+                    own, other = f"({a}[0], {t})", f"({o}, {t} - {n_})"
+                    if at == [f"{t} < {n_}"]:
+                        inst = norm(gen.elt.body) == own and norm(gen.elt.orelse) == other
+                    elif at == [f"{n_} <= {t}"]:
+                        inst = norm(gen.elt.body) == other and norm(gen.elt.orelse) == own
                 rep.ob("R10.5-nonlocal-instantiation", inst, loc, ys[0].value,
                        "indices below n belong to the active object, indices from n on to the other object (shifted by n)")
             rep.ob("R10.5-nonlocal-once-per-other-object", ok_outer and skip_ok, loc, "for every other composite object exactly once",
@@ -121,8 +134,14 @@ def check_factor_generators(prog: Program, rep: Report) -> None:
                                                    "FactorTypeMapInStateTagger.yield_identifiers_send_event_time"),
            "yield from set(...)", "when several point masses of one object are active the same index set must not be treated twice")
     if tg is not None:
-        t = ast.unparse(tg)
-        rep.ob("R10.5-all-active-leaves", "yield_leaf_nodes(root_cnode)" in t and "for root_cnode in" in t,
+        # every leaf of every active root cnode is asked: a generator / loop over the parameter, and inside it one over
+        # yield_leaf_nodes(<that variable>), without a filter
+        ps = param_names(tg)
+        gens = [(norm(g.target), norm(g.iter), bool(g.ifs)) for g in ast.walk(tg) if isinstance(g, ast.comprehension)]
+        gens += [(norm(l.target), norm(l.iter), False) for l in ast.walk(tg) if isinstance(l, ast.For)]
+        roots = [v for v, it, flt in gens if it in ps and not flt]
+        okl = any(it == f"yield_leaf_nodes({rv})" and not flt for rv in roots for v, it, flt in gens)
+        rep.ob("R10.5-all-active-leaves", okl,
                Loc("jellyfysh/activator/tagger/factor_type_map_in_state_tagger.py", tg.lineno, "FactorTypeMapInStateTagger.yield_identifiers_send_event_time"),
                "all leaves of all active root cnodes", "every active point mass must be asked for its index sets")
 
